@@ -65,6 +65,27 @@ type BadReturns struct{}
 func (BadReturns) Fine() error     { return nil }
 func (BadReturns) Two() (int, int) { return 1, 2 }
 
+// further receivers, each with one return layout outside (T), (error), (T, error)
+type BadReturns3 struct{}
+
+func (BadReturns3) Fine() error                 { return nil }
+func (BadReturns3) Triple() (int, string, error) { return 1, "x", nil }
+
+type BadReturnsErrFirst struct{}
+
+func (BadReturnsErrFirst) ErrFirst() (error, int) { return nil, 1 }
+
+type BadReturns4 struct{}
+
+func (BadReturns4) Four() (int, int, int, error) { return 1, 2, 3, nil }
+
+// GoodReturns: every supported layout (the control)
+type GoodReturns struct{}
+
+func (GoodReturns) One() int             { return 1 }
+func (GoodReturns) Err() error           { return nil }
+func (GoodReturns) Both() (int, error)   { return 1, nil }
+
 type jk struct {
 	coq  string
 	json string
@@ -284,11 +305,21 @@ func c16Instrumented(ctx *Ctx, i int, rng *rand.Rand) {
 }
 
 func c16BadReturns(ctx *Ctx, i int) {
-	srv := &jsonrpc2.Server{}
-	err := srv.Register("bad_", BadReturns{})
-	table := methodTable(BadReturns{})
-	coq := fmt.Sprintf("{| c16_prefix := %s; c16_methods := %s; c16_allow := []; c16_register_ok := %s; c16_probes := [] |}", cString("bad_"), gmethodsCoq(table), cBool(err == nil))
-	ctx.Emit(Case{I: i, Kind: "unsupported-returns", Coq: coq, Desc: map[string]interface{}{"error": fmt.Sprint(err)}})
+	for k, recv := range []interface{}{BadReturns{}, BadReturns3{}, BadReturnsErrFirst{}, BadReturns4{}, GoodReturns{}} {
+		srv := &jsonrpc2.Server{}
+		err := srv.Register("bad_", recv)
+		table := methodTable(recv)
+		var mon []string
+		bad := false
+		for _, m := range table {
+			bad = bad || !m.RetOK
+		}
+		if bad && err == nil {
+			mon = append(mon, fmt.Sprintf("c16-unsupported-returns-registered: Register accepted receiver %T although it has a method whose return layout is none of (T), (error), (T, error): its methods are now callable", recv))
+		}
+		coq := fmt.Sprintf("{| c16_prefix := %s; c16_methods := %s; c16_allow := []; c16_register_ok := %s; c16_probes := [] |}", cString("bad_"), gmethodsCoq(table), cBool(err == nil))
+		ctx.Emit(Case{I: i + 20 + k, Kind: "unsupported-returns", Coq: coq, Desc: map[string]interface{}{"receiver": fmt.Sprintf("%T", recv), "error": fmt.Sprint(err)}, Monitor: mon})
+	}
 }
 
 // c16Production: the production receivers registered with the allow-lists read from pool.go;
@@ -472,7 +503,7 @@ func c16Binary(ctx *Ctx, i int) {
 func runC16(ctx *Ctx) {
 	n := ctx.N(12, 200)
 	forEachCase(ctx, n, func(i int, rng *rand.Rand) { c16Instrumented(ctx, i, rng) })
-	if ctx.Want(n) {
+	if ctx.Want(n) || ctx.Want(n+20) || ctx.Want(n+21) || ctx.Want(n+22) || ctx.Want(n+23) || ctx.Want(n+24) {
 		c16BadReturns(ctx, n)
 	}
 	if ctx.Want(n+1) || ctx.Want(n+2) || ctx.Want(n+3) {
